@@ -351,7 +351,8 @@ def run(tier, seed, replay=None):
                 "(cwd, spelling) combinations; --config; pyscn init vs no file (whole report compared)" % len(FILE_ONLY),
         "exhaustive": True,
         "exhaustive_note": "the matrices are run completely on every run",
-        "samples": [],
+        "samples": [{"option": "min_complexity", "flag": "--min-complexity 6", "config": "[complexity] min_complexity = 1", "expected_effective": 6},
+                    {"key": "[dead_code] context_lines = 0", "expected_effective": 0}, {"discovery": "nearest of two .pyscn.toml (mid vs top)", "expected": "mid"}],
         "traces_validated_against_impl": hist["cells_both"] + hist["cells_file_only"] + hist["discovery_cases"],
         "distribution": hist,
     })
